@@ -135,6 +135,26 @@ class World(ControlWorld):
                     self.sit["C16.tiny_widths_identical"] += 1
                 s2.reader.feed_eof()
                 await self.idle()
+        # another client with another terminal width (on another pool of the process) must not change what this one is shown
+        sample = members[:: max(1, len(members) // 4)][:4]
+        first = {}
+        for n, member in sample:
+            cmd = n.replace("_", "-")
+            first[cmd] = b"".join(await self.send(s, f"{cmd} -h"))
+        other_w = width + 57 if width < 200 else width - 61
+        s3 = await self.open(self.make_pool(), other_w)
+        if s3.handshake_exc is None:
+            await self.send(s3, "-h")
+            for cmd, was in first.items():
+                now = b"".join(await self.send(s, f"{cmd} -h"))
+                if now != was:
+                    self.violate("C16.member_help", f"'{cmd} -h' (width {width}) changed after a client of width {other_w} had connected: longest line "
+                                                    f"{max(map(len, was.decode().splitlines() or ['']))} -> {max(map(len, now.decode().splitlines() or ['']))}")
+                    break
+            else:
+                self.sit["C16.help_stable_with_other_width"] += 1
+            s3.reader.feed_eof()
+            await self.idle()
         # "available as a command": the read-only members and the static methods are also executed (they cannot disturb
         # anything), the reply must be what the direct access gives
         import inspect as _inspect
